@@ -52,7 +52,7 @@ def topo_shapes(rng, n):
     return es
 
 
-def gen_world(rng, profile="mixed", max_tasks=5, allow_hint_raise=False):
+def gen_world(rng, profile="mixed", max_tasks=5):
     """A reachable scheduler input: graphs whose tasks are COMPLETED / RUNNING / SCHEDULED / RELEASED / VIRTUAL
     consistently with the edges, on 1-3 heterogeneous workers."""
     now = rng.choice([0, 0, 3, 10, 17])
@@ -137,8 +137,6 @@ def gen_world(rng, profile="mixed", max_tasks=5, allow_hint_raise=False):
                             opts.append((wi, k, rt, need, fits_now))
                 if st == "X":
                     opts = [o for o in opts if o[4]]
-                if st == "S" and not allow_hint_raise and len(opts) < len(flat) * len(strats):
-                    opts = []      # signature of the known finding ILP-H1 (see sig_hint_raise)
                 if not opts:
                     st = td["state"] = "R"
                 else:
@@ -162,23 +160,6 @@ def gen_world(rng, profile="mixed", max_tasks=5, allow_hint_raise=False):
     return {"now": now, "pools": pools, "graphs": graphs, "tasks": tasks, "horizon": horizon,
             "cfg": {"enforce": enforce, "retract": retract, "release_tg": release_tg, "goal": goal,
                     "lookahead": lookahead, "allowed0": allowed0}}
-
-
-def sig_hint_raise(w):
-    """Input signature of the known finding ILP-H1: a SCHEDULED task one of whose strategies does not fit
-    on some worker (then `placement_variable.Start = ..` is executed on the integer 0)."""
-    flat = [wd for pool in w["pools"] for wd in pool]
-    for t in w["tasks"]:
-        if t["state"] != "S":
-            continue
-        for wd in flat:
-            tot = {}
-            for r, q in wd["res"]:
-                tot[r] = tot.get(r, 0) + q
-            for rt, res in t["strats"]:
-                if any(tot.get(r, 0) < q for r, q in res):
-                    return True
-    return False
 
 
 # ----------------------------------------------------------------------------- Gallina rendering
@@ -406,7 +387,7 @@ def common_prelude(ctx, props_file, n_quick, n_thorough, profile="mixed"):
     n = n_quick if ctx.tier == "quick" else n_thorough
     worlds = [gen_world(ctx.rng, profile) for _ in range(n)]
     results = run_worlds(worlds)
-    errs = [(w, r) for w, r in zip(worlds, results) if "error" in r and not sig_hint_raise(w)]
+    errs = [(w, r) for w, r in zip(worlds, results) if "error" in r]
     for w, r in errs[:2]:
         ctx.violation("raise", {"stream": "S-csys", "world": w, "what": "ILPScheduler.schedule() raised: " + r["error"]})
     stream_raises(ctx, worlds, results)
@@ -425,8 +406,9 @@ def common_prelude(ctx, props_file, n_quick, n_thorough, profile="mixed"):
     return built, worlds, results
 
 
-def replay_corpus(ctx, sub, fid, fails, what):
-    """Replay corpus/<sub>/<fid>*.json on the implementation; print the KNOWN-FINDING line only if it still fails."""
+def replay_corpus(ctx, sub, fid, fails, what, fixed=False):
+    """Replay corpus/<sub>/<fid>*.json on the implementation.  A known finding prints its KNOWN-FINDING line only if
+    the witness still fails; a fixed finding is a regression case: failing again is a violation."""
     d = os.path.join(core.ROOT, "corpus", sub)
     for f in sorted(os.listdir(d)) if os.path.isdir(d) else []:
         if not f.startswith(fid):
@@ -434,7 +416,11 @@ def replay_corpus(ctx, sub, fid, fails, what):
         w = json.load(open(os.path.join(d, f)))["world"]
         r = run_worlds([w], probe=False)[0]
         if fails(w, r):
-            ctx.known(fid, what)
+            if fixed:
+                ctx.violation("regress_" + fid.replace("-", ""), {"stream": "corpus", "world": w, "what": "regression of a fixed finding: " + what,
+                                                                   "implementation": r.get("error", r.get("plan"))})
+            else:
+                ctx.known(fid, what)
         return r
     return None
 
@@ -456,9 +442,9 @@ def hypothesis_monitor(ctx, worlds, results):
 
 def run(ctx):
     built, worlds, results = common_prelude(ctx, ctx.pid, 80, 1200)
-    replay_corpus(ctx, "C10_ilp", "ILP-H1", lambda w, r: "AttributeError" in r.get("error", ""),
-                  "schedule() raises AttributeError for a SCHEDULED task with a strategy that does not fit on some worker "
-                  "(ilp_scheduler.py:248-255)")
+    replay_corpus(ctx, "C10_ilp", "ILP-H1", lambda w, r: "error" in r,
+                  "schedule() raises for a SCHEDULED task with a strategy that does not fit on some worker "
+                  "(ilp_scheduler.py:248-255)", fixed=True)
     hypothesis_monitor(ctx, worlds, results)
     stream_csys(ctx, worlds, results)
     stream_plan(ctx, worlds, results)
